@@ -1,6 +1,6 @@
 #!/bin/sh
 # usage: tools/confirm_seed.sh <Cxx> <variant>  -- independently confirm a sub-agent's seeded defect in a scratch worktree
-C="$1"; V="$2"; SRC=/tmp/wt/${C}_out/$V; WT=/tmp/cs/${C}_$V; OUT=/verif/seeded/${C}_$V
+C="$1"; V="$2"; SRC=/tmp/wt/${C}_out${3:-}/$V; WT=/tmp/cs/${C}_$V; OUT=/verif/seeded/${C}_$V
 [ -f "$SRC/patch.diff" ] || { echo "no patch for $C $V"; exit 2; }
 mkdir -p /tmp/cs; rm -rf "$WT"; git -C /repo worktree prune
 git -C /repo worktree add -q --detach "$WT" HEAD || exit 2
@@ -8,8 +8,9 @@ cd "$WT"
 demo_clean=$( /venv/bin/python "$SRC/demo.py" "$WT" >/tmp/cs/${C}_$V.clean.log 2>&1; echo $? )
 git apply "$SRC/patch.diff" || { echo "patch does not apply"; git -C /repo worktree remove --force "$WT"; exit 2; }
 demo_mut=$( /venv/bin/python "$SRC/demo.py" "$WT" >/tmp/cs/${C}_$V.mut.log 2>&1; echo $? )
-t1=$( OMP_NUM_THREADS=2 /venv/bin/python -m pytest -q -p no:cacheprovider --timeout=900 2>&1 | tail -1 )
-t2=$( OMP_NUM_THREADS=2 /venv/bin/python -m pytest -q -p no:cacheprovider --timeout=900 2>&1 | tail -1 )
+OMP_NUM_THREADS=2 /venv/bin/python -m pytest -q -rf -p no:cacheprovider --timeout=900 >/tmp/cs/${C}_$V.t1.log 2>&1; t1=$( tail -1 /tmp/cs/${C}_$V.t1.log )
+OMP_NUM_THREADS=2 /venv/bin/python -m pytest -q -rf -p no:cacheprovider --timeout=900 >/tmp/cs/${C}_$V.t2.log 2>&1; t2=$( tail -1 /tmp/cs/${C}_$V.t2.log )
+grep -h '^FAILED' /tmp/cs/${C}_$V.t1.log /tmp/cs/${C}_$V.t2.log
 cd /; git -C /repo worktree remove --force "$WT"
 echo "$C $V demo_clean=$demo_clean demo_mut=$demo_mut tests1='$t1' tests2='$t2'"
 case "$t1$t2" in *failed*|*error*) echo "REJECTED: tests fail"; exit 1;; esac
